@@ -196,6 +196,8 @@ pub fn gen(prop: &str, seed: u64) -> Plan {
         "C05" => gen_c05(seed),
         "C03" => gen_c03(seed),
         "C15" => gen_c05_like(seed, "C15"),
+        "C04" => gen_c04(seed),
+        "C09" => gen_c09(seed),
         _ => gen_c03(seed),
     }
 }
@@ -280,6 +282,152 @@ fn gen_c03(seed: u64) -> Plan {
         "expect_caught_up".into(),
         "expect_converge".into(),
         "stop_when_caught_up".into(),
+    ];
+    finish(b, until, 900_000)
+}
+
+/// Fork switches at arbitrary sync phases (below / at / above last-N).
+fn gen_c04(seed: u64) -> Plan {
+    let mut b = base("C04", seed, 200, 3);
+    if b.rng.chance(2, 3) {
+        b.plan.knobs.last_n = pick(&mut b.rng, &[2u64, 3, 5, 10]);
+    }
+    connect_all(&mut b, 3_000);
+    let until = b.rng.range(40_000, 200_000);
+    let tip = b.plan.initial_blocks;
+    // scripts early, so that the index has content when the fork arrives
+    let at = b.rng.range(0, 5_000);
+    let mut scripts = random_scripts(&mut b, 4, tip);
+    for s in scripts.iter_mut() {
+        if b.rng.chance(2, 3) {
+            s.1 = b.rng.range(0, (tip / 2).max(1));
+        }
+    }
+    add(
+        &mut b.plan,
+        at,
+        Action::User(UserOp::SetScripts {
+            cmd: SetCmd::All,
+            scripts,
+        }),
+    );
+    let n_forks = b.rng.range(1, 2);
+    let mut main = 0usize;
+    let mut t = b.rng.range(3_000, until / 2);
+    let np = b.plan.peers.len();
+    for f in 0..n_forks {
+        // mining on the current main chain before the fork
+        let mut tm = if f == 0 { b.rng.range(2_000, 20_000) } else { t + 1_000 };
+        while tm < t {
+            add(&mut b.plan, tm, Action::Mine { branch: main, n: b.rng.range(1, 2) });
+            tm += b.rng.range(5_000, 40_000);
+        }
+        let last_n = b.plan.knobs.last_n;
+        let back = match b.rng.below(8) {
+            0 => last_n + b.rng.range(1, 5),          // deeper than last-N: long fork
+            1 => last_n,
+            2 => last_n.saturating_sub(1).max(1),
+            _ => b.rng.range(1, last_n.min(12).max(1)),
+        };
+        let n = back + b.rng.range(1, 4);
+        // a finalized check point is final by design: forks must stay above the last one,
+        // i.e. be shallower than the check-point interval
+        if b.plan.knobs.check_point_interval <= 2 * back + 2 {
+            let ok: Vec<u64> = [8u64, 16, 64, 2000]
+                .iter()
+                .cloned()
+                .filter(|v| *v > 2 * back + 2)
+                .collect();
+            b.plan.knobs.check_point_interval = pick(&mut b.rng, &ok);
+        }
+        if b.rng.chance(1, 6) {
+            add(&mut b.plan, t.saturating_sub(b.rng.range(100, 3_000)), Action::Restart);
+        }
+        add(&mut b.plan, t, Action::Fork { src: main, back, n });
+        let nb = f as usize + 1;
+        for p in 0..np {
+            let at = t + b.rng.range(1, 25_000);
+            add(&mut b.plan, at, Action::SwitchBranch { peer: p, branch: nb });
+        }
+        main = nb;
+        t += b.rng.range(30_000, 90_000);
+    }
+    let until = until.max(t);
+    // keep the new main chain growing
+    let mut tm = t;
+    while tm < until {
+        add(&mut b.plan, tm, Action::Mine { branch: main, n: 1 });
+        tm += b.rng.range(15_000, 40_000);
+    }
+    let n_ops = b.rng.range(0, 4);
+    for _ in 0..n_ops {
+        let at = b.rng.range(0, until);
+        add(&mut b.plan, at, Action::User(UserOp::Audit));
+    }
+    b.plan.flags = vec![
+        "honest".into(),
+        "index".into(),
+        "fork".into(),
+        "expect_caught_up".into(),
+        "stop_when_caught_up".into(),
+        format!("main={}", main),
+    ];
+    finish(b, until, 900_000)
+}
+
+/// set_scripts sequences issued at every phase of an ongoing sync.
+fn gen_c09(seed: u64) -> Plan {
+    let mut b = base("C09", seed, 160, 3);
+    connect_all(&mut b, 3_000);
+    let until = b.rng.range(30_000, 180_000);
+    growth(&mut b, until);
+    if b.rng.chance(1, 2) {
+        honest_faults(&mut b, until, true, false);
+    }
+    let tip = b.plan.initial_blocks;
+    let n_cmds = b.rng.range(2, 8);
+    for i in 0..n_cmds {
+        let at = if i == 0 {
+            b.rng.range(0, 5_000)
+        } else {
+            b.rng.range(1_000, until)
+        };
+        let cmd = match b.rng.below(8) {
+            0 | 1 => SetCmd::All,
+            2 => SetCmd::Default,
+            3 | 4 | 5 => SetCmd::Partial,
+            _ => SetCmd::Delete,
+        };
+        let mut scripts = if b.rng.chance(1, 10) {
+            Vec::new()
+        } else {
+            random_scripts(&mut b, 3, tip)
+        };
+        if b.rng.chance(1, 6) && !scripts.is_empty() {
+            // duplicate entry with another start number
+            let mut d = scripts[0].clone();
+            d.1 = b.rng.range(0, tip + 3);
+            scripts.push(d);
+        }
+        add(
+            &mut b.plan,
+            at,
+            Action::User(UserOp::SetScripts { cmd, scripts }),
+        );
+    }
+    let n_ops = b.rng.range(0, 5);
+    for _ in 0..n_ops {
+        let at = b.rng.range(0, until);
+        let op = if b.rng.chance(1, 2) { UserOp::Audit } else { UserOp::GetScripts };
+        add(&mut b.plan, at, Action::User(op));
+    }
+    b.plan.flags = vec![
+        "honest".into(),
+        "index".into(),
+        "setscripts".into(),
+        "expect_caught_up".into(),
+        "stop_when_caught_up".into(),
+        format!("audit_stride={}", b.rng.range(3, 12)),
     ];
     finish(b, until, 900_000)
 }
